@@ -7,7 +7,7 @@ From FlacWriters Require Import Params_proofs.
 From FlacReaders Require Readers Spec Ser RNum Seek.
 From FlacWriters Require Import Lists_proofs Writers_proofs.
 From FlacWriters Require Import Bytes_proofs.
-From FlacE2E Require Import Bridge E2E SampleE2E Success ChannelE2E ByteE2E ByteSuccess ChannelSuccess ReadBridge ReadersE2E InterruptedE2E SeekE2E.
+From FlacE2E Require Import Bridge E2E SampleE2E Success ChannelE2E ByteE2E ByteSuccess ChannelSuccess ReadBridge ReadersE2E InterruptedE2E SeekE2E SeekReadE2E.
 Import ListNotations.
 Open Scope N_scope.
 
@@ -393,6 +393,34 @@ Theorem C09_sample_writer_seekpoints : forall o L md5, (forall l, length (md5 l)
           FlacCodec.Ast.h_number h = N.of_nat (length pre).
 Proof. exact sample_writer_seekpoints. Qed.
 
+(* C06 on written files.  The SEEKTABLE a FlacSampleWriter model run writes, seen as the readers area sees a table (sample
+   number, the frame the byte offset leads to — `point_rel`, justified by C09_end_to_end_seekpoints), is truthful; so the
+   abstract file of the written blocks WITH THAT TABLE on a seekable source is valid, and every history of the
+   FlacSampleReader model over it, seeks included, obeys the cursor contract over exactly the samples written: a seek to
+   any PCM frame in range lands there, a seek beyond fails safely *)
+Theorem C06_written_file_seeks : forall o L md5, (forall l, length (md5 l) = 16%nat) ->
+  forall p rate bps wo ch total w chunks iv e rp,
+  options_wf wo -> o_seektable_interval wo = Some iv ->
+  sample_new p [] wo rate bps ch total = Ok w ->
+  forallb (FlacCodec.Wf.fits bps) (concat chunks) = true ->
+  let W := N.of_nat (length (concat chunks)) / ch in
+  let written := firstn (N.to_nat ch * (length (concat chunks) / N.to_nat ch)) (concat chunks) in
+  1 <= W -> N.of_nat (length (concat chunks)) < 2 ^ 36 ->
+  match total with Some T => T = ch * W | None => True end ->
+  exists f blocks,
+    sample_run (encB o L rate bps) md5 p w chunks = Ok f /\
+    forall pts, first_seektable (f_blocks f) = Some pts ->
+    exists table, Forall2 (point_rel blocks) pts table /\
+      let F := file_of_blocks_seek blocks ch bps (Some (FlacCodec.Enc_proofs.blocks_samples blocks)) table e rp in
+      FlacReaders.Spec.valid_file F /\ FlacReaders.Spec.pcm F = written /\
+      forall ops, Forall FlacReaders.Spec.sop_ok (snd (FlacReaders.Seek.sample_run F ops)) ->
+        let atr := map (FlacReaders.Spec.abs_s F) (snd (FlacReaders.Seek.sample_run F ops)) in
+        Forall (FlacReaders.Spec.cur_ok written) atr /\
+        FlacReaders.Spec.chained 0 atr (FlacReaders.Spec.spos F (fst (FlacReaders.Seek.sample_run F ops))) /\
+        FlacReaders.Spec.seeks_land written atr /\ FlacReaders.Spec.failed_seeks_safe written atr.
+Proof. exact written_file_seeks. Qed.
+
+Print Assumptions C06_written_file_seeks.
 Print Assumptions C09_end_to_end_seekpoints.
 Print Assumptions C09_sample_writer_seekpoints.
 Print Assumptions C14_end_to_end_interrupted.
